@@ -9,6 +9,13 @@
 (*                          / Detect still said tar                        *)
 (***************************************************************************)
 EXTENDS Tar, TLC, Json, IOUtils
+\* the root formats consulted before tar in the pinned tree (tree.go:20-21: "tar sits after exe/elf/ar and
+\* before the remaining root formats"): only these may claim a conforming archive
+HigherThanTar == {"image/x-xpixmap", "application/x-7z-compressed", "application/zip", "application/pdf", "application/vnd.fdf",
+                  "application/x-ole-storage", "application/postscript", "image/vnd.adobe.photoshop", "application/pkcs7-signature",
+                  "application/ogg", "image/png", "image/jpeg", "image/jxl", "image/jp2", "image/jpx", "image/jpm", "image/jxs",
+                  "image/gif", "image/webp", "application/vnd.microsoft.portable-executable", "application/x-elf",
+                  "application/x-archive"}
 Log == ndJsonDeserialize(IOEnv.TRACE)
 VARIABLE l
 E == Log[l]
@@ -19,7 +26,7 @@ Next == /\ l <= Len(Log)
            THEN /\ (IF WriterConforms(E.block) THEN TRUE ELSE PrintT(<<"INFO", "writer_sum_not_unsigned", l>>))
                 /\ (IF TarAccept(E.block) = E.accepted THEN TRUE ELSE PrintT(<<"DRIFT", l>>))
                 /\ Check("C18", "conforming tar header rejected by the detector", WriterConforms(E.block) /\ ~HasGpkg(E.block) => E.accepted)
-                /\ Check("C18", "conforming tar archive not reported as tar", (WriterConforms(E.block) /\ ~HasGpkg(E.block) /\ ~E.exempt) => E.result = "application/x-tar")
+                /\ Check("C18", "conforming tar archive not reported as tar", (WriterConforms(E.block) /\ ~HasGpkg(E.block)) => (E.result = "application/x-tar" \/ E.rootchild \in HigherThanTar))
            ELSE /\ Check("C18", "corrupted header still accepted by the detector", (E.pos < 148 \/ E.pos > 155) => E.tar_vals = <<>>)
                 /\ Check("C18", "corrupted header still reported as tar", (E.pos < 148 \/ E.pos > 155) => E.tar_detect_vals = <<>>)
         /\ l' = l + 1 /\ TLCSet(42, l + 1)
